@@ -168,6 +168,11 @@ func c11PipelineDoc(ctx *core.Ctx) (map[string]any, string) {
 		return s
 	}
 	d := m{"name": "proj", "services": m{"a": svc(), "b": svc(), "x.y": svc()}}
+	if r.Intn(2) == 0 {
+		// a service whose key looks like an extension is a service: every stage treats it like `a`
+		d["services"].(map[string]any)["x-ray"] = svc()
+		ctx.Count("pipeline:x-service")
+	}
 	put(d, "networks", pick(r, optPTopNets))
 	put(d, "volumes", pick(r, optPTopVols))
 	kind := "pipeline:valid-shapes"
@@ -198,6 +203,11 @@ func c11PipelineStream(ctx *core.Ctx) {
 			ctx.Count("path-next")
 			ctx.Add("c11.next", map[string]any{"p": p, "k": k})
 		}
+	}
+	// at the root `Next` does not escape: it splits (Props/C11Lift.lean: RootFacts — root.Next(k) = [k] for the five section names)
+	for _, k := range []string{"services", "networks", "volumes", "configs", "secrets", "x-ext", "services.a", "a.b.c", ".", ""} {
+		ctx.Count("path-next:root")
+		ctx.Add("c11.next", map[string]any{"p": []string{""}, "k": k})
 	}
 	envs := []map[string]string{{}, {"FOO": "bar", "EMPTY": ""}, {"FOO": "a=b", "X": "1"}}
 	for i := 0; i < ctx.Pick(2500, 60000); i++ {
